@@ -4,6 +4,7 @@ import (
 	"fmt"
 	"go/types"
 	"math"
+	"os"
 	"strings"
 
 	"golang.org/x/tools/go/ssa"
@@ -230,6 +231,17 @@ func (e *Exec) stubFor(fn *ssa.Function, name string) (intrinsic, bool) {
 				e.abort("stub target not found: " + target)
 			}
 			return func(e *Exec, _ *ssa.Function, args []Value) Value {
+				if tr := os.Getenv("SYMGO_TRACE_STUB"); tr != "" && strings.Contains(name, tr) {
+					// debugging aid: interpreted call stack at the call of a stubbed function
+					fmt.Fprintf(os.Stderr, "[trace-stub] %s called from:\n", name)
+					for fr := e.curFrame; fr != nil; fr = fr.caller {
+						pos := ""
+						if fr.cur != nil {
+							pos = e.prog.Fset.Position(fr.cur.Pos()).String()
+						}
+						fmt.Fprintf(os.Stderr, "    %s %s\n", fr.fn.String(), pos)
+					}
+				}
 				return e.callFunc(tf, args, nil, nil)
 			}, true
 		}
